@@ -670,8 +670,9 @@ class SymWalker:
         env = self.env if env is None else env
 
         class S(ast.NodeTransformer):
-            def __init__(s, bound):
+            def __init__(s, bound, notag=False):
                 s.bound = bound
+                s.notag = notag     # inside a lambda / comprehension nothing is tagged by this walk: a tag found there is stale
 
             def visit_Name(s, n):
                 if isinstance(n.ctx, ast.Load) and n.id in env and n.id not in s.bound:
@@ -679,7 +680,7 @@ class SymWalker:
                 return n
 
             def visit_Call(s, n):
-                tag = getattr(n, "_tag", None)
+                tag = None if s.notag else getattr(n, "_tag", None)
                 n = s.generic_visit(n)
                 if tag is not None and not any(k.arg == "__n" for k in n.keywords):
                     n.keywords = list(n.keywords) + [ast.keyword("__n", ast.Constant(tag))]
@@ -691,10 +692,10 @@ class SymWalker:
                     for x in ast.walk(g.target):
                         if isinstance(x, ast.Name):
                             bound.add(x.id)
-                inner = S(bound)
+                inner = S(bound, True)
                 first = True
                 for g in n.generators:
-                    g.iter = (s if first else inner).visit(g.iter)
+                    g.iter = (S(s.bound, True) if first else inner).visit(g.iter)
                     g.ifs = [inner.visit(c) for c in g.ifs]
                     first = False
                 if isinstance(n, ast.DictComp):
@@ -707,7 +708,7 @@ class SymWalker:
 
             def visit_Lambda(s, n):
                 bound = set(s.bound) | {a.arg for a in n.args.args + n.args.posonlyargs + n.args.kwonlyargs}
-                n.body = S(bound).visit(n.body)
+                n.body = S(bound, True).visit(n.body)
                 return n
         out = S(set()).visit(copy.deepcopy(e))
         return self.canon.expr(out)
@@ -772,6 +773,10 @@ class SymWalker:
     # ------------------------------------------------------------------ walk
     def run(self, body=None):
         body = body if body is not None else self.node.body
+        for b_ in (body if isinstance(body, list) else [body]):
+            for n_ in ast.walk(b_):
+                if isinstance(n_, ast.Call) and getattr(n_, "_tag", None) is not None:
+                    n_._tag = None          # left by an earlier walk of the same source
         out = self.block(body, [State({}, True)])
         self.final = out
         r = f_or(*[s.reach for s in out]) if out else False
